@@ -385,6 +385,10 @@ func (Spec) MakeInterest(name enc.Name, config *ndn.InterestConfig, appParam enc
 	if config == nil {
 		return nil, ndn.ErrInvalidValue{Item: "Interest.DataConfig", Value: nil}
 	}
+	if config.HopLimit != nil && *config.HopLimit > 0xff {
+		// HopLimit is a one-byte field on the wire; never cut a larger value down to its low byte
+		return nil, ndn.ErrInvalidValue{Item: "Interest.HopLimit", Value: *config.HopLimit}
+	}
 	forwardingHint := (*Links)(nil)
 	if config.ForwardingHint != nil {
 		forwardingHint = &Links{
